@@ -110,7 +110,8 @@ Record state := {
   st_heap : heap;
   st_reg : registry;
   st_order : list word;        (* registered addresses, slot order (abstract: any order) *)
-  st_mitems : nat;
+  st_nitems : N;               (* gc->nitems *)
+  st_mitems : N;               (* gc->mitems *)
   st_minptr : N;
   st_maxptr : N;
   st_tls : list contents;
@@ -125,13 +126,13 @@ Inductive event :=
 | ECollect.                                        (* forced: GC_Mark; GC_Sweep *)
 
 Definition st0 : state :=
-  {| st_heap := nempty; st_reg := nempty; st_order := []; st_mitems := 0;
+  {| st_heap := nempty; st_reg := nempty; st_order := []; st_nitems := 0%N; st_mitems := 0%N;
      st_minptr := 18446744073709551615%N; st_maxptr := 0%N; st_tls := []; st_stack := [] |}.
 
 Section Step.
   Variables (tls_recurses mar_guarded : bool).
 
-  Definition next_mitems (n : nat) : nat := n + n / 2 + 1.
+  Definition next_mitems (n : N) : N := (n + n / 2 + 1)%N.      (* gc->nitems + gc->nitems / 2 + 1 *)
 
   (* GC_Mark; GC_Sweep with `extra` additional stack words *)
   Definition do_collect (s : state) (extra : list word) : outcome (state * list word) :=
@@ -141,8 +142,9 @@ Section Step.
       (fun r =>
          let '(rg', fin) := r in
          let order' := filter (fun p => registered rg' p) (st_order s) in
+         let n' := N.of_nat (length order') in
          Ok ({| st_heap := fold_right ndel (st_heap s) fin; st_reg := rg'; st_order := order';
-                st_mitems := next_mitems (length order');
+                st_nitems := n'; st_mitems := next_mitems n';
                 st_minptr := st_minptr s; st_maxptr := st_maxptr s;
                 st_tls := st_tls s; st_stack := st_stack s |}, fin)).
 
@@ -150,7 +152,7 @@ Section Step.
      minptr/maxptr, insert *)
   Definition alloc_state (s : state) (p : word) (c : contents) (root : bool) : state :=
     {| st_heap := nset p c (st_heap s); st_reg := nset p root (st_reg s);
-       st_order := st_order s ++ [p]; st_mitems := st_mitems s;
+       st_order := p :: st_order s; st_nitems := N.succ (st_nitems s); st_mitems := st_mitems s;
        st_minptr := N.min p (st_minptr s); st_maxptr := N.max p (st_maxptr s);
        st_tls := st_tls s; st_stack := st_stack s |}.
 
@@ -161,7 +163,7 @@ Section Step.
     match e with
     | EAlloc p c root =>
       let s1 := alloc_state s p c root in
-      if st_mitems s <? length (st_order s1) then Some (s1, [p]) else None
+      if (st_mitems s <? st_nitems s1)%N then Some (s1, [p]) else None
     | ECollect => Some (s, [])
     | _ => None
     end.
@@ -170,21 +172,22 @@ Section Step.
     match e with
     | EAlloc p c root =>
       let s1 := alloc_state s p c root in
-      if st_mitems s <? length (st_order s1) then do_collect s1 [p] else Ok (s1, [])
+      if (st_mitems s <? st_nitems s1)%N then do_collect s1 [p] else Ok (s1, [])
     | EStore p c =>
       Ok ({| st_heap := nset p c (st_heap s); st_reg := st_reg s; st_order := st_order s;
-             st_mitems := st_mitems s; st_minptr := st_minptr s; st_maxptr := st_maxptr s;
+             st_nitems := st_nitems s; st_mitems := st_mitems s; st_minptr := st_minptr s; st_maxptr := st_maxptr s;
              st_tls := st_tls s; st_stack := st_stack s |}, [])
     | ERoots tls stack =>
       Ok ({| st_heap := st_heap s; st_reg := st_reg s; st_order := st_order s;
-             st_mitems := st_mitems s; st_minptr := st_minptr s; st_maxptr := st_maxptr s;
+             st_nitems := st_nitems s; st_mitems := st_mitems s; st_minptr := st_minptr s; st_maxptr := st_maxptr s;
              st_tls := tls; st_stack := stack |}, [])
     | EDel p =>
       (* GC_Rem: remove, finalise; mitems recomputed *)
       if registered (st_reg s) p then
         let order' := filter (fun q => negb (q =? p)%N) (st_order s) in
+        let n' := N.of_nat (length order') in
         Ok ({| st_heap := ndel p (st_heap s); st_reg := ndel p (st_reg s); st_order := order';
-               st_mitems := next_mitems (length order');
+               st_nitems := n'; st_mitems := next_mitems n';
                st_minptr := st_minptr s; st_maxptr := st_maxptr s;
                st_tls := st_tls s; st_stack := st_stack s |}, [p])
       else Ok (s, [])
